@@ -73,14 +73,14 @@ def scaling_arrays(p, spec, flat):
             pick(lin_in, inames, 0, 1.0)]
 
 
-def same(a, b, exact, tol):
+def same(a, b, exact, tol, slack=0.0):
     a, b = np.asarray(a, dtype=float), np.asarray(b, dtype=float)
     if a.shape != b.shape:
         return False, 'shape %s vs %s' % (a.shape, b.shape)
     if exact:
         bad = np.nonzero(a != b)
     else:
-        bad = np.nonzero(~(np.abs(a - b) <= tol * np.maximum(1.0, np.abs(b))))
+        bad = np.nonzero(~(np.abs(a - b) <= tol * np.maximum(1.0, np.abs(b)) + slack))
     if len(bad[0]):
         k = tuple(int(x[0]) for x in bad)
         return False, 'entry %s: scaled run %r, unscaled run %r' % (k, float(a[k]), float(b[k]))
@@ -99,6 +99,12 @@ def handle(c):
         return out
     coupled = spec['coupled']
     tol = 1e-7 if coupled else 1e-9
+    # iterative solvers of the scaled run converge on residuals divided by |res_ref| <= 100: the solution error
+    # their absolute tolerance permits, in physical units
+    slack = 0.0
+    if coupled or cfg.get('lin') in ('lbgs', 'lbjac', 'krylov', 'krylov_cyc'):
+        ex = sg.exact_all(sg.flatten(spec))
+        slack = 100 * sg.solver_slack(ex) if ex is not None else 0.0
     for k, variant in enumerate(c['scaled']):
         s2 = variant['spec']
         try:
@@ -109,7 +115,7 @@ def handle(c):
         exact = bool(variant['pow2']) and not coupled and cfg.get('lin') in ('runonce', 'lbgs')
         for key in [('state',), ('inputs',)] + [('J', m, ds) for m in ('fwd', 'rev') for ds in (False, True)]:
             kk = key[0] if len(key) == 1 else key
-            good, why = same(obs[kk], base[kk], exact, tol)
+            good, why = same(obs[kk], base[kk], exact, tol, 0.0 if exact else slack)
             if not good and out['ok']:
                 out['ok'] = False
                 what = {'state': 'converged outputs', 'inputs': 'inputs'}.get(key[0], 'compute_totals %s' % (key[1:],))
